@@ -71,8 +71,6 @@ structure SState where
   storage : List (Nat × T) := []   -- plain slots of the executing account written so far: slot ↦ 256-bit term, newest first
   transient : List (Nat × T) := [] -- the same for transient storage
   returndata : List T := []        -- output of the last message call of this frame (byte terms); empty before any call
-  created : List (Nat × List Nat) := []  -- accounts made by CREATE on this path (address ↦ code), newest first; shared by the frames like `path`
-  nonce : Nat := 0                 -- `cnts["address"]`: the number of CREATE attempts on this path so far
 
 inductive StuckReason where
   | notConcrete | unsupported (op : Nat) | internal (e : PyErr)
